@@ -239,6 +239,9 @@ static void c11_gen(Rng &rng, Plan &plan, bool thorough)
 	plan.setp("in_seed", (int64_t)(rng.next() >> 2));
 	plan.setp("timeout", rng.chance(500) ? 0 : rng.range(1, 30));
 	plan.setp("no_init", rng.chance(40) ? 1 : 0);
+	// the handle may have served another coder before (no lzma_end in between):
+	// nothing of that coder - in particular not the set of actions it supported - may survive
+	if (rng.chance(350)) { plan.setp("prev_kind", (int64_t)rng.below(CK_COUNT)); plan.setp("prev_calls", (int64_t)rng.below(3)); }
 	// a decoder may be fed a corrupted file to reach the fatal-error state
 	if (kind >= CK_STREAM_DEC && rng.chance(250)) { Op f("sfault"); f.set("kind", 1).set("pos", (int64_t)(100000 + rng.below(800000))).set("len", 4).set("val", (int64_t)rng.below(256)); plan.ops.push_back(f); }
 	int n = 3 + (int)rng.below(thorough ? 40 : 25);
@@ -319,6 +322,23 @@ static void c11_exec(const Plan &plan, Verdict &v)
 	ss.has_timeout = timeout != 0;
 	ss.s.allocator = &al.a;
 	bool no_init = plan.p("no_init", 0) != 0;
+	Setup su_prev; setup_chain(su_prev);
+	if (!no_init && plan.hasp("prev_kind")) {
+		int pk = (int)plan.p("prev_kind") % CK_COUNT;
+		Bytes pin; std::string e2;
+		Bytes pplain(plain.begin(), plain.begin() + (long)std::min<size_t>(plain.size(), 300));
+		if (make_input(pk, pplain, su_prev, pin, e2) && init_coder(&ss.s, pk, su_prev, 0) == LZMA_OK) {
+			Bytes ob(64);
+			size_t pos = 0;
+			for (int64_t i = 0; i < plan.p("prev_calls", 0); ++i) {
+				size_t n = std::min<size_t>(pin.size() - pos, 40);
+				ss.s.next_in = pin.data() + pos; ss.s.avail_in = n; ss.s.next_out = ob.data(); ss.s.avail_out = ob.size();
+				(void)lzma_code(&ss.s, LZMA_RUN);
+				pos += n - ss.s.avail_in;
+			}
+			v.count("reach.handle_served_another_coder_before");
+		}
+	}
 	if (!no_init) {
 		lzma_ret r = init_coder(&ss.s, kind, su, timeout);
 		if (r != LZMA_OK) { v.fail("init", "C11/init", fmt("init of %s returned %s", ck_names[kind], ret_name(r))); lzma_end(&ss.s); return; }
